@@ -9,6 +9,7 @@ import FM.Model.Ellipses
 import FM.Model.Render
 import FM.Base.Sexp
 import FM.Base.ResolveCodec
+import FM.Model.FsMachine
 import FM.Model.BlockStart
 import FM.Model.TagSeg
 import FM.Model.Scan
@@ -146,6 +147,16 @@ def step (line : String) : String :=
       match resolveOp force maxSize incl excl args with
       | some r => r
       | none => bad
+  | ["fsops", flags] =>
+      -- one character per file: 'b' in place with backup, 'n' without, 'x' reading/formatting failed
+      let jobs : List (List FM.Fs.Op) := (flags.toList.zipIdx).map fun (c, i) =>
+        if c == 'x' then FM.Fs.failedOps
+        else FM.Fs.Job.ops { target := 3 * i, tmp := 3 * i + 1, orig := 3 * i + 2, backup := c == 'b', old := [], chunks := [[0]] }
+      let show1 : FM.Fs.Op → String
+        | .create p => s!"c{p}"
+        | .append p _ => s!"a{p}"
+        | .rename a b => s!"r{a}-{b}"
+      String.intercalate ";" (jobs.flatten.map show1)
   | ["interrupts", ws] => match decList ws with
       | some ws => encBool (interruptsPara ws)
       | none => bad
